@@ -883,6 +883,61 @@ pub open spec fn beneficiary_step(i0: MinerInfo, i1: MinerInfo, caller: Address,
         }),
 //@ end
 
+// ---------------- GetOwner / IsControllingAddress / GetSectorSize / GetAvailableBalance (queries: any caller, nothing changes) ----------------
+//@ include prelude/iter_any.rs
+//@ item actors/miner/src/types.rs GetOwnerReturn
+//@ item actors/miner/src/types.rs IsControllingAddressParam
+//@ item actors/miner/src/types.rs IsControllingAddressReturn
+//@ item actors/miner/src/types.rs GetSectorSizeReturn
+//@ item actors/miner/src/types.rs GetAvailableBalanceReturn
+//@ fn actors/miner/src/lib.rs Actor::get_owner free
+    ensures
+        *final(rt) == (Rt { validated: final(rt).validated, ..*old(rt) }),
+        /*C11*/ r.is_ok() ==> final(rt).validated@.is_some(),
+        // what an observer is told IS the stored owner and the stored pending successor
+        r.is_ok() ==> info_of(rt_state::<State>(old(rt).state_id@)).is_some() && ({
+            let i = info_of(rt_state::<State>(old(rt).state_id@))->Some_0;
+            r->Ok_0.owner == i.owner && r->Ok_0.proposed == i.pending_owner_address
+        }),
+//@ end
+/// membership in a sequence is membership in its set of elements (glue between `vx_any_eq` and `vx_control_worker_owner`)
+pub proof fn lemma_contains_to_set()
+    ensures forall|v: Seq<Address>, x: Address| #[trigger] v.contains(x) == v.to_set().contains(x)
+{ assert forall|v: Seq<Address>, x: Address| #[trigger] v.contains(x) == v.to_set().contains(x) by {} }
+//@ fn actors/miner/src/lib.rs Actor::is_controlling_address free sub0="info . control_addresses . iter () . chain (& [info . worker , info . owner]) . any (| a | * a == input)=>vx_any_eq(&vx_control_worker_owner(&info), input)"
+    ensures
+        *final(rt) == (Rt { validated: final(rt).validated, ..*old(rt) }),
+        /*C11*/ r.is_ok() ==> final(rt).validated@.is_some(),
+        // an address that does not resolve controls nothing
+        r.is_ok() && rt_resolve(params.address, old(rt).sends@.len()).is_none() ==> !r->Ok_0.is_controlling,
+        // otherwise: controlling <==> its ID address is the owner, the worker or one of the control addresses — nobody else
+        r.is_ok() && rt_resolve(params.address, old(rt).sends@.len()).is_some() ==>
+            info_of(rt_state::<State>(old(rt).state_id@)).is_some() && ({
+                let i = info_of(rt_state::<State>(old(rt).state_id@))->Some_0;
+                let a = Address { id: rt_resolve(params.address, old(rt).sends@.len())->Some_0, proto: 0 };
+                r->Ok_0.is_controlling == (a == i.owner || a == i.worker || i.control_addresses@.contains(a))
+            }),
+//@ entry
+        proof { lemma_contains_to_set(); }
+//@ end
+//@ fn actors/miner/src/lib.rs Actor::get_sector_size free
+    ensures
+        *final(rt) == (Rt { validated: final(rt).validated, ..*old(rt) }),
+        /*C11*/ r.is_ok() ==> final(rt).validated@.is_some(),
+        r.is_ok() ==> info_of(rt_state::<State>(old(rt).state_id@)).is_some()
+            && r->Ok_0.sector_size == info_of(rt_state::<State>(old(rt).state_id@))->Some_0.sector_size,
+//@ end
+//@ fn actors/miner/src/lib.rs Actor::get_available_balance free
+    ensures
+        *final(rt) == (Rt { validated: final(rt).validated, ..*old(rt) }),
+        /*C11*/ r.is_ok() ==> final(rt).validated@.is_some(),
+        // balance - (vesting + pre-commit deposits + initial pledge) - fee debt, reported only when the first difference is not negative
+        r.is_ok() ==> ({
+            let st = rt_state::<State>(old(rt).state_id@);
+            r->Ok_0.available_balance@ == unlocked(st, old(rt).balance@) - st.fee_debt@ && unlocked(st, old(rt).balance@) >= 0
+        }),
+//@ end
+
 // ---------------- ChangePeerID / ChangeMultiaddrs ----------------
 //@ item actors/miner/src/types.rs ChangePeerIDParams
 //@ item actors/miner/src/types.rs ChangeMultiaddrsParams
